@@ -367,7 +367,7 @@ func basePDFs() []basePDF {
 		{"modern", []pdfw.Doc{d0, d1}, pdfw.Layout{XRef: []string{"stream", "stream"}, ObjStm: true, ObjStmCount: 2, ObjStmExtends: true,
 			Length: "after", Split: 2, ContentsIndirect: true, Depth: 2, FanOut: 2, ResLevel: 1, ResIndirect: true, FontDictInd: true, FreeDeleted: true}},
 		{"filtered", []pdfw.Doc{d0, d1}, pdfw.Layout{XRef: []string{"table", "stream"}, XRefFlate: true, XRefPredictor: true, ObjStm: true, ObjStmFlate: true,
-			Filters: [][]string{{"FlateDecode"}, {"ASCII85Decode", "FlateDecode"}, {"ASCIIHexDecode"}}, Predictor: true, ToUniFlate: true,
+			Filters: [][]string{{"FlateDecode"}, {"ASCII85Decode", "FlateDecode"}, {"ASCIIHexDecode"}}, Predictor: true, PredColors: 3, ToUniFlate: true,
 			Length: "before", LengthInObjStm: true, Depth: 3, FanOut: 1, BoxLevel: 3, RotLevel: 2}},
 	}
 	// the same filtered layout with the TIFF predictor (a single revision keeps the catalogue small)
